@@ -83,10 +83,8 @@ func (provider *Provider) Layout(name string) (*template.Template, error) {
 	if name == "" {
 		name = goathtml.DefaultLayout
 	}
-	tmpl, ok := provider.layouts[name]
-	if ok {
-		return tmpl, nil
-	}
+	// the cache map is only touched under the layout mutex (a plain read here raced with
+	// the write in layout(): "concurrent map read and map write" kills the process)
 	return provider.layout(name)
 }
 
@@ -128,7 +126,6 @@ func (provider *Provider) layout(name string) (layoutTemplate *template.Template
 // View return template for view by name. It contains selected layout definitions and helpers
 func (provider *Provider) View(layoutName, viewName string) (tmpl *template.Template, err error) {
 	var (
-		ok  bool
 		key string
 	)
 	if layoutName == "" {
@@ -138,10 +135,7 @@ func (provider *Provider) View(layoutName, viewName string) (tmpl *template.Temp
 		return nil, goaterr.Errorf("goathtml.Provider: A view name is required")
 	}
 	key = layoutName + ":" + viewName
-	// check without lock (preformence feature)
-	if tmpl, ok = provider.views[key]; ok {
-		return tmpl, nil
-	}
+	// the cache map is only touched under the view mutex (see Layout)
 	return provider.view(layoutName, viewName, key)
 }
 
